@@ -277,6 +277,10 @@ def run_case(chk, stream, case):
     raise ValueError(stream)
 
 
+EXTRA_PARAMS = [("xa", " leading blank"), ("xb", "trailing tab\t"), ("xc", u"\u00a0nbsp both ends\u00a0"), ("xd", " "), ("xe", "\nline\n"), ("xf", b" bytes with blanks "), ("xg", 0),
+                ("xh", u"\u2003em space"), ("xi", "")]
+
+
 def _run_request(chk, case):
     """the whole request as the registration classes build and send it (send(preview=True): everything but the socket): the server key is
     replaced by one whose private half the check holds, the blob handed to sendRequest is opened and parsed with standard decoding"""
@@ -318,6 +322,9 @@ def _run_request(chk, case):
             WACodeRequest("sms", prof).send(preview=True)
         elif kind == "exists":
             q = WAExistsRequest(prof)
+            # parameters the caller adds itself: what goes in through addParam is what the server must read (edge blanks, tabs, no-break spaces included)
+            for xn, xv in EXTRA_PARAMS:
+                q.addParam(xn, xv)
             q.send(preview=True)
             q.send(preview=True)          # the same request object sent again (a retry): a fresh ephemeral key, the same parameters
         else:
@@ -363,6 +370,11 @@ def _run_request(chk, case):
         d = {}
         for k, v in got:
             d.setdefault(k, []).append(v)
+        if kind == "exists":
+            for xn, xv in EXTRA_PARAMS:
+                if d.get(xn.encode()) != [_as_bytes(xv)] * 1:
+                    fails.append(oracle("C20:added-parameter-altered", "%s: parameter %s was added with the value %r, the server reads %r" % (what, xn, xv, d.get(xn.encode()))))
+                    break
         if d.get(b"cc") != [cc.encode()] or d.get(b"in") != [nat.encode()]:
             fails.append(oracle("C20:request-number", "%s: the request carries cc=%r in=%r" % (what, d.get(b"cc"), d.get(b"in"))))
         if path.endswith("/code") or path.endswith("/exist"):
